@@ -381,7 +381,7 @@ def _own_stmts(fn_node):
     return out
 
 
-def _param_leaves(fn, expr, at, rd):
+def _param_leaves(fn, expr, at, rd, mutations=True):
     """Parameters (and other entry-defined names) the value of expr at node `at` depends on: closure of the
     reaching definitions, through the free variables of nested functions that are called, and through the
     iteration expressions of the loops that enclose a definition."""
@@ -400,7 +400,7 @@ def _param_leaves(fn, expr, at, rd):
     # in-place mutations of a local (x[k] = v, x.append(v), x[k].append(v), x.update(v)): what is put in is part of
     # what x holds afterwards (flow-insensitive over-approximation)
     muts = {}
-    if not isinstance(fn.node, ast.Lambda):
+    if mutations and not isinstance(fn.node, ast.Lambda):
         for st in _own_stmts(fn.node):
             tgt, vals = None, []
             if isinstance(st, ast.Assign) and isinstance(st.targets[0], ast.Subscript):
@@ -418,7 +418,7 @@ def _param_leaves(fn, expr, at, rd):
                 if isinstance(base, ast.Subscript):
                     extra.append(base.slice)
                 base = base.value
-            if isinstance(base, ast.Name):
+            if isinstance(base, ast.Name) and base.id not in ('self', 'cls'):
                 muts.setdefault(base.id, []).append((st, vals + extra))
     mut_seen = set()
     work = [(n, at) for n in uses(expr)]
@@ -502,7 +502,7 @@ def check_memo_functions(ctx, functions, rule='A2p'):
                 rd = rd or build_rd(fn)
                 kd = _param_leaves(fn, t.slice, s, rd)
                 vd = _param_leaves(fn, s.ast.value, s, rd)
-                croot = _param_leaves(fn, t.value, s, rd) | ({cont.split('.')[0]} if cont.split('.')[0] in fn.params
+                croot = _param_leaves(fn, t.value, s, rd, mutations=False) | ({cont.split('.')[0]} if cont.split('.')[0] in fn.params
                                                             else set())
                 missing = []
                 for p in sorted(vd - kd - croot):
